@@ -1,4 +1,4 @@
-CONSTANTS MaxFacts = 3  MaxOps = 6  KeyKind = "debug"
+CONSTANTS MaxFacts = 3  MaxOps = 6  MemoDepth = 2  KeyKind = "debug"
 INIT Init
 NEXT Next
 CONSTRAINT Bound
